@@ -101,6 +101,9 @@ func (t *Transport) next() int { t.seq++; return t.seq }
 
 func (t *Transport) Remaining() int { return len(t.Reply) - t.Delivered }
 
+// ReplyLen is the length of the scripted reply.
+func (t *Transport) ReplyLen() int { return len(t.Reply) }
+
 func (t *Transport) logEv(e Event) {
 	e.Seq = t.next()
 	e.AtNs = int64(vtime.Elapsed())
